@@ -737,6 +737,83 @@ fn main() {
         println!("E2REPLAY {}", json!({"result": {"register": reg_out, "authenticate": auth_out, "effective_rp": effective_rp}, "log": *log.lock().unwrap()}));
         return;
     }
+    if sc["op"] == "cbor_minimal" {
+        // each integer-keyed message from a map holding only its required members: decodes, with the specified defaults;
+        // and with any one required member removed: an error
+        use ciborium::value::Value as V;
+        let int = |i: i64| V::Integer(i.into());
+        let txt = |s: &str| V::Text(s.to_string());
+        let ga = vec![(int(1), txt("example.com")), (int(2), V::Bytes(vec![7u8; 32]))];
+        let mc = vec![
+            (int(1), V::Bytes(vec![7u8; 32])),
+            (int(2), V::Map(vec![(txt("id"), txt("example.com")), (txt("name"), txt("n"))])),
+            (int(3), V::Map(vec![(txt("id"), V::Bytes(vec![9u8; 8])), (txt("name"), txt("n")), (txt("displayName"), txt("d"))])),
+            (int(4), V::Array(vec![V::Map(vec![(txt("alg"), int(-7)), (txt("type"), txt("public-key"))])])),
+        ];
+        let info = vec![(int(1), V::Array(vec![txt("FIDO_2_0")])), (int(3), V::Bytes(vec![0u8; 16]))];
+        let cose = V::Map(vec![(int(1), int(2)), (int(3), int(-25)), (int(-1), int(1)), (int(-2), V::Bytes(vec![1u8; 32])), (int(-3), V::Bytes(vec![2u8; 32]))]);
+        let hm = vec![(int(1), cose), (int(2), V::Bytes(vec![3u8; 32])), (int(3), V::Bytes(vec![4u8; 16]))];
+        fn enc(m: &[(V, V)]) -> Vec<u8> { let mut b = Vec::new(); ciborium::ser::into_writer(&V::Map(m.to_vec()), &mut b).unwrap(); b }
+        fn probe<T: serde::de::DeserializeOwned>(name: &str, full: &[(V, V)], out: &mut Vec<Value>, describe: impl Fn(&T) -> Value) {
+            let whole: Result<T, _> = ciborium::de::from_reader(enc(full).as_slice());
+            let mut missing_accepted = Vec::new();
+            for i in 0..full.len() {
+                let mut m = full.to_vec();
+                let (k, _) = m.remove(i);
+                if ciborium::de::from_reader::<T, _>(enc(&m).as_slice()).is_ok() { missing_accepted.push(format!("{:?}", k)); }
+            }
+            out.push(json!({"message": name, "minimal_decodes": whole.is_ok(), "defaults": whole.as_ref().ok().map(&describe), "missing_required_accepted": missing_accepted,
+                            "error": whole.err().map(|e| e.to_string())}));
+        }
+        let mut out = Vec::new();
+        probe::<get_assertion::Request>("get_assertion::Request", &ga, &mut out, |r| json!({"up": r.options.up, "rk": r.options.rk, "uv": r.options.uv,
+            "allow_list": r.allow_list.is_some(), "extensions": r.extensions.is_some(), "pin_auth": r.pin_auth.is_some(), "pin_protocol": r.pin_protocol.is_some()}));
+        probe::<make_credential::Request>("make_credential::Request", &mc, &mut out, |r| json!({"up": r.options.up, "rk": r.options.rk, "uv": r.options.uv,
+            "exclude_list": r.exclude_list.is_some(), "extensions": r.extensions.is_some(), "pin_auth": r.pin_auth.is_some(), "pin_protocol": r.pin_protocol.is_some()}));
+        probe::<passkey_types::ctap2::get_info::Response>("get_info::Response", &info, &mut out, |r| json!({"extensions": r.extensions.is_some(), "options": r.options.is_some(),
+            "max_msg_size": r.max_msg_size.is_some(), "pin_protocols": r.pin_protocols.is_some(), "transports": r.transports.is_some()}));
+        probe::<passkey_types::ctap2::extensions::HmacGetSecretInput>("HmacGetSecretInput", &hm, &mut out, |r| json!({"pin_uv_auth_protocol": r.pin_uv_auth_protocol.is_some()}));
+        println!("E2REPLAY {}", json!({"result": {"messages": out}, "log": []}));
+        return;
+    }
+    if sc["op"] == "base64_lenient" {
+        // byte strings of length 0..=7 in four textual presentations through the lenient `Bytes` parser, and the encoders
+        let enc = |data: &[u8], url: bool, pad: bool| -> String {
+            let abc: &[u8] = if url { b"ABCDEFGHIJKLMNOPQRSTUVWXYZabcdefghijklmnopqrstuvwxyz0123456789-_" } else { b"ABCDEFGHIJKLMNOPQRSTUVWXYZabcdefghijklmnopqrstuvwxyz0123456789+/" };
+            let mut out = String::new();
+            let (mut acc, mut bits) = (0u32, 0);
+            for &b in data { acc = (acc << 8) | b as u32; bits += 8; while bits >= 6 { bits -= 6; out.push(abc[((acc >> bits) & 63) as usize] as char); } }
+            if bits > 0 { out.push(abc[((acc << (6 - bits)) & 63) as usize] as char); }
+            if pad { while out.len() % 4 != 0 { out.push('='); } }
+            out
+        };
+        let seeds: [u8; 6] = [0xfb, 0xff, 0x00, 0x3e, 0x7f, 0xa5];
+        let mut mism: Vec<String> = Vec::new();
+        let mut n = 0usize;
+        for len in 0..=7usize {
+            for s0 in 0..seeds.len() {
+                let data: Vec<u8> = (0..len).map(|i| seeds[(s0 + i) % seeds.len()].wrapping_add((i as u8).wrapping_mul(29))).collect();
+                for (url, pad) in [(false, true), (false, false), (true, true), (true, false)] {
+                    let text = enc(&data, url, pad);
+                    n += 1;
+                    let parsed: Result<passkey_types::Bytes, _> = serde_json::from_str(&format!("\"{}\"", text));
+                    match parsed {
+                        Ok(b) if b.as_slice() == &data[..] => {}
+                        Ok(b) => mism.push(format!("{:?} parsed to {:?}, expected {:?}", text, b.as_slice(), data)),
+                        Err(_) => mism.push(format!("{:?} rejected (bytes {:?})", text, data)),
+                    }
+                }
+                let arr: Result<passkey_types::Bytes, _> = serde_json::from_str(&serde_json::to_string(&data).unwrap());
+                if arr.map(|b| b.as_slice() != &data[..]).unwrap_or(true) { mism.push(format!("byte array {:?} not parsed back", data)); }
+                if passkey_types::encoding::base64url(&data) != enc(&data, true, false) { mism.push(format!("base64url({:?}) = {:?}", data, passkey_types::encoding::base64url(&data))); }
+                if passkey_types::encoding::base64(&data) != enc(&data, false, false) { mism.push(format!("base64({:?}) = {:?}", data, passkey_types::encoding::base64(&data))); }
+                if passkey_types::encoding::try_from_base64url(&enc(&data, true, false)).as_deref() != Some(&data[..]) { mism.push(format!("try_from_base64url does not invert base64url for {:?}", data)); }
+            }
+        }
+        mism.truncate(12);
+        println!("E2REPLAY {}", json!({"result": {"cases": n, "mismatches": mism}, "log": []}));
+        return;
+    }
     if sc["op"] == "cbor_duplicates" {
         // serialise fully populated messages, duplicate one top-level member at a time, decode again
         use ciborium::value::Value as V;
@@ -881,6 +958,19 @@ fn main() {
         add("mc-extensions-none", base().set_make_credential_extensions(None).ok(), false, false);
         add("ga-extensions-none", base().set_assertion_extensions(None).ok(), false, false);
         add("set_flags(AT|ED)", Some(base().set_flags(Flags::AT | Flags::ED)), false, false);
+        println!("E2REPLAY {}", json!({"result": {"cases": cases}, "log": []}));
+        return;
+    }
+    if sc["op"] == "cose_converter" {
+        // ES256 / EC2 COSE keys with coordinates of various lengths through the public-key converter
+        use coset::{iana, CoseKeyBuilder};
+        let mut cases = Vec::new();
+        for (xl, yl) in [(32usize, 32usize), (31, 32), (32, 31), (0, 32), (32, 0), (33, 32), (32, 33), (1, 1), (64, 64)] {
+            let key = CoseKeyBuilder::new_ec2_pub_key(iana::EllipticCurve::P_256, vec![7u8; xl], vec![9u8; yl]).algorithm(iana::Algorithm::ES256).build();
+            let r = std::panic::catch_unwind(|| passkey_authenticator::public_key_der_from_cose_key(&key).map(|b| b.len()));
+            let outcome = match r { Ok(Ok(_)) => "ok", Ok(Err(_)) => "err", Err(_) => "panic" };
+            cases.push(json!({"x_len": xl, "y_len": yl, "outcome": outcome}));
+        }
         println!("E2REPLAY {}", json!({"result": {"cases": cases}, "log": []}));
         return;
     }
@@ -1067,6 +1157,21 @@ fn main() {
                         "flags": u8::from(resp.auth_data.flags),
                         "has_attested": resp.auth_data.attested_credential_data.is_some()}}),
                     Some(Err(e)) => json!({"err": u8::from(e)}),
+                }
+            }
+            "get_info" | "trait_get_info" => {
+                let r = if op == "get_info" {
+                    block_on(Authenticator::get_info(&auth), max_polls, &mut polls)
+                } else {
+                    block_on(Ctap2Api::get_info(&auth), max_polls, &mut polls)
+                };
+                match r {
+                    None => json!("cancelled"),
+                    Some(info) => {
+                        let mut b = Vec::new();
+                        let _ = ciborium::ser::into_writer(&info, &mut b);
+                        json!({"ok": {"debug": format!("{:?}", info), "cbor": b}})
+                    }
                 }
             }
             "u2f_register" => {
